@@ -75,3 +75,39 @@ Theorem gen_correct_1d_factor (v : R) (p r : option nat) : ge1 p -> ge1 r ->
   Gen_C06.correct_1d ROps v (oz p) (oz r) =
   match correction_n r p with Some n => (bessel ROps n * v)%R | None => v end.
 Proof. intros Hp Hr. rewrite correct_1d_tie by assumption. reflexivity. Qed.
+
+(* ---- t_test_0: one-sided p-values against zero, for any distribution function in the place of Student's t ---- *)
+Lemma map2_map_r {A B C D} (f : A -> C -> D) (g : B -> C) (a : list A) (b : list B) :
+  map2 f a (map g b) = map2 (fun x y => f x (g y)) a b.
+Proof. revert b. induction a as [|x a IH]; intros [|y b]; try reflexivity. cbn [map map2]. rewrite IH. reflexivity. Qed.
+
+Theorem t_test_0_tie (cdf : R -> R) (ev var : list R) :
+  Gen_C06.t_test_0 ROps cdf ev var (feps ROps) = map (p_one cdf) (t_zero ROps ev var).
+Proof.
+  unfold Gen_C06.t_test_0, t_zero. cbv zeta. rewrite !map_map, map2_map_r.
+  rewrite (map_ext (fun x => nsub ROps (nofZ ROps 1) (cdf x)) (p_one cdf)) by reflexivity.
+  reflexivity.
+Qed.
+
+Lemma map2_in {A B C} (f : A -> B -> C) a b z : In z (map2 f a b) -> exists x y, z = f x y.
+Proof.
+  revert b. induction a as [|x a IH]; intros b H; [destruct H|].
+  destruct b as [|y b]; [destruct H|]. cbn [map2] in H. destruct H as [<-|H].
+  - exists x, y. reflexivity.
+  - apply (IH b H).
+Qed.
+
+(* every reported p-value lies in [0,1] *)
+Theorem gen_t_test_0_range (cdf : R -> R) (ev var : list R) : (forall x, 0 <= cdf x <= 1)%R ->
+  Forall (fun p => 0 <= p <= 1)%R (Gen_C06.t_test_0 ROps cdf ev var (feps ROps)).
+Proof.
+  intros Hc. rewrite t_test_0_tie. apply Forall_forall. intros p Hp. apply in_map_iff in Hp. destruct Hp as [t [<- _]].
+  apply p_one_range. exact Hc.
+Qed.
+
+(* a larger evaluation at equal variance never yields a larger p-value *)
+Theorem gen_t_test_0_monotone (cdf : R -> R) (e1 e2 v : R) : (forall x y, x <= y -> cdf x <= cdf y)%R -> (e1 <= e2)%R ->
+  (nth 0 (Gen_C06.t_test_0 ROps cdf [e2] [v] (feps ROps)) 0 <= nth 0 (Gen_C06.t_test_0 ROps cdf [e1] [v] (feps ROps)) 0)%R.
+Proof.
+  intros Hm He. rewrite !t_test_0_tie. cbn [t_zero map2 map nth]. apply one_sided_p_monotone; assumption.
+Qed.
